@@ -141,6 +141,7 @@ func (s *Session) racCheck(prop string, u0 *Unit, o *Obligation, mv map[string]s
 		return base
 	}
 	nextID := map[string]int64{}
+	var bindRec func(pn string, v Value) Value
 	bind := func(pn string, v Value) Value {
 		switch v.K {
 		case KBuf:
@@ -184,16 +185,17 @@ func (s *Session) racCheck(prop string, u0 *Unit, o *Obligation, mv map[string]s
 			if n, w, ok := parseSMTBV(mv[pn]); ok {
 				return Value{K: KNum, T: v.T, Term: BVLit(n, w)}
 			}
-			return Value{K: KNum, T: v.T, Term: BVLit64(7, u.widthOf(v.T))}
+			return Value{K: KNum, T: v.T, Term: u.constNum(v.T, true, big.NewInt(7), "7").Term}
 		case KStruct:
 			nv := Value{K: KStruct, T: v.T, Fields: map[string]Value{}}
 			for k, f := range v.Fields {
-				nv.Fields[k] = f
+				nv.Fields[k] = bindRec(pn+"."+k, f)
 			}
 			return nv
 		}
 		return v
 	}
+	bindRec = bind
 	hasOuter := false
 	for _, pn := range ct.Params {
 		v := u0.entry[pn]
@@ -236,6 +238,13 @@ func (s *Session) racCheck(prop string, u0 *Unit, o *Obligation, mv map[string]s
 			json.Unmarshal(raw["result"], &rs)
 			if n, ok := new(big.Int).SetString(rs, 10); ok {
 				result = &Value{K: KInt, T: rt, Term: IntBig(n)}
+			}
+		} else if isIntegerT(rt) {
+			// fixed-width integer result (BitDepth, int64, uint64, sample types)
+			var rs string
+			json.Unmarshal(raw["result"], &rs)
+			if n, ok := new(big.Int).SetString(rs, 10); ok {
+				result = &Value{K: KNum, T: rt, Term: BVLit(n, u.widthOf(rt))}
 			}
 		}
 	}
